@@ -51,7 +51,7 @@ BRIDGE_FUNCS = {
     "C15": ["to_snake_case", "make_private", "client_method_name"],
     "C16": ["make_private", "client_method_name"],
     "C17": ["fix_name_segment", "fix_field_path"],
-    "C20": ["is_list_item", "get_subsequent_line_indentation_level", "fix_whitespace"],
+    "C20": ["is_list_item", "get_subsequent_line_indentation_level", "fix_whitespace", "metadata_doc"],
 }
 
 
